@@ -39,10 +39,15 @@ WHAT IT DOES (theorems by kernel computation on images regenerated from the curr
 HOW TO REUSE (C08/C09): write a macro table (same entry format; `vars` may mix 'hex'/'bit' kinds, `temps` names the
 macro's own scratch variables, extra global scratch such as the pointer cells goes into Config.extra_scratch as
 label -> (ops, mask)), add the specs to StlSpec.v + stl_specs.SPECS, and call run_property(ctx, Config(...)).
+ADDED FOR C08 (builder of C08, backwards compatible): block_text and resolve_block first look for the methods
+`ptr_text` / `ptr_resolve` on the block object (stl_ptr.PBlock defines them; plain Blocks are unaffected).  Everything
+else of C08 (explicit-list domains, pointer-cell consistency clause, its own run_property) lives in stl_ptr.py.
 Input-consuming macros need `init ... input` in StlRun.check_block (currently the input is empty) - extend
 check_block with an input parameter, the machinery here passes operands only through memory.
 """
+import dataclasses
 import itertools
+import os
 import json
 import math
 import re
@@ -72,6 +77,7 @@ class Config:
     extra_scratch: dict = field(default_factory=dict)
     quick_n2_fraction: float = 0.10
     quick_n2: dict = field(default_factory=dict)     # parameter dict of the seed-chosen larger quick instance
+    quick_n2_cases: int = 70_000
 
 
 @dataclass
@@ -87,6 +93,8 @@ class Block:
     temps: list                 # [(local label, ops)]
     params: dict
     kind: str = 'single'        # single | pair | sample
+    guard: str = ''             # Coq/python predicate instance of a known defect (theorem is stated for `guarded`)
+    witnesses: list = field(default_factory=list)
     w: int = 64
     # filled after assembly / sampling
     k: int = -1
@@ -134,6 +142,11 @@ def coq_spec(spec):
     return t
 
 
+def thm_spec(b):
+    """the spec the theorem of block b is stated for: guarded by the known-defect predicate when there is one"""
+    return f'(guarded ({b.guard}) {coq_spec(b.spec)})' if b.guard else coq_spec(b.spec)
+
+
 def spec_text(spec):
     return spec if isinstance(spec, str) else ' ; '.join(f'{s} on vars {idx}' for idx, s in spec[1])
 
@@ -150,9 +163,9 @@ def _bits(kind):
 
 
 def make_block(entry, params, w, kind='single'):
-    p = {k: v for k, v in params.items() if k not in ('w', 'pin')}
+    p = {k: v for k, v in params.items() if k not in ('w', 'pin')}   # 'w' restricts widths, 'pin' pins outputs
     vars_ = [(ph, kd, int(eval(str(ex), {}, dict(p)))) for ph, kd, ex in entry['vars']]
-    domo = SP.pinned_domain(entry, params)
+    domo = SP.pinned_domain(entry, params, vars_)
     dom = []
     for ph, kd, n in vars_:
         dom.append(tuple(domo[ph]) if ph in domo else (0, 1 << (_bits(kd) * n)))
@@ -162,7 +175,8 @@ def make_block(entry, params, w, kind='single'):
     title = f"{entry['name']} " + ' '.join(f'{k}={v}' for k, v in p.items()) + (' (outputs pinned)' if domo else '')
     return Block(bid=bid, title=title.strip(), macro=entry['name'], calls=[entry['call'].format_map(_Keep(p))],
                  vars=vars_, exits=entry['exits'], spec=entry['spec'].format(**p), dom=dom, temps=temps,
-                 params=dict(p), kind=kind, w=w)
+                 params=dict(p), kind=kind, w=w, guard=entry['guard'].format(**p) if entry.get('guard') else '',
+                 witnesses=entry['witness'](p) if entry.get('witness') else [])
 
 
 class _Keep(dict):
@@ -207,16 +221,23 @@ def plan_blocks(ctx, cfg):
     thm, smp = [], []
     boosted = []
     if tier == 'quick':
-        cands = [e for e in cfg.table if any(p.get('n') == cfg.quick_n2['n'] for p in e['inst']['thorough'])
+        cands = [e for e in cfg.table if any(p.get('n') == cfg.quick_n2['n'] and not p.get('pin') for p in e['inst']['thorough'])
                  and not any(p.get('n') == cfg.quick_n2['n'] for p in e['inst']['quick'])]
         k = max(1, round(len(cfg.table) * cfg.quick_n2_fraction))
-        boosted = ctx.rng.sample(cands, min(k, len(cands)))
+        ctx.rng.shuffle(cands)
+        budget = cfg.quick_n2_cases          # the seed-chosen larger instances are limited by their total number of cases
+        for e in cands:
+            p = [p for p in e['inst']['thorough'] if p.get('n') == cfg.quick_n2['n'] and not p.get('pin')][0]
+            nc = make_block(e, p, widths[0]).ncases() * (4 if e['temps'] else 1)
+            if len(boosted) < k and nc <= budget:
+                boosted.append(e)
+                budget -= nc
     for e in cfg.table:
         insts = list(e['inst'][tier])
         if e in boosted:
-            insts += [p for p in e['inst']['thorough'] if p.get('n') == cfg.quick_n2['n'] and not p.get('pin')][:1]
+            insts += [dict(p, w=None) for p in e['inst']['thorough'] if p.get('n') == cfg.quick_n2['n'] and not p.get('pin')][:1]
         for p in insts:
-            for w in p.get('w', widths):
+            for w in (p.get('w') or widths):
                 if w in widths:
                     thm.append(make_block(e, p, w))
         for p in e['inst']['sample']:
@@ -236,6 +257,8 @@ def plan_blocks(ctx, cfg):
 
 def block_text(b, k, literal=None):
     """harness fragment of block b under label prefix b<k>; literal = operand values written as literals (replay)"""
+    if hasattr(b, 'ptr_text'):          # C08 hooks (stl_ptr.PBlock): the block writes its own harness fragment
+        return b.ptr_text(k, literal)
     pre = f'b{k}'
     env = {ph: f'{pre}_v{i}' for i, (ph, _, _) in enumerate(b.vars)}
     env.update({f'x{i}': f'{pre}_x{i}' for i in range(1, b.exits + 1)})
@@ -284,6 +307,8 @@ def _asm_jobs(ctx, jobs):
 
 def resolve_block(b, k, res, w, extra_scratch):
     """fills b.addr from the label table of the image the block was assembled in"""
+    if hasattr(b, 'ptr_resolve'):       # C08 hooks (stl_ptr.PBlock): variables at arbitrary labels, address-valued operands
+        return b.ptr_resolve(k, res, w, extra_scratch)
     L = res['labels']
     pre = f'b{k}'
     ww = w.bit_length() - 1
@@ -292,7 +317,9 @@ def resolve_block(b, k, res, w, extra_scratch):
     exits = [(l0, [])] + [(L[f'{pre}_l{i}'], [0x30 + i]) for i in range(1, b.exits + 1)]
     vars_ = [(_bits(kind), (L[f'{pre}_v{i}'] >> ww) + 1, n) for i, (_, kind, n) in enumerate(b.vars)]
     allm = (1 << w) - 1
-    scratch = {0: 1, 2: 3}
+    # word 0 bit 0: target of every no-op flip; word 2 bits 0-1: the output port; word 1 (jump word of op 0) data nibble:
+    # the stl's "null variable" - hex.shl_bit/shr_bit discard the shifted-out bit by flipping <address 0>+dbit+{0,3}
+    scratch = {0: 1, 2: 3, 1: 0xF << (ww + 1)}
     tsz = dict(b.temps)
     found = {}
     for nm, a in res['locals']:
@@ -426,12 +453,31 @@ def sample_operands(rng, b, count):
 def engine_case(b, values, ww, pyf, cid, watchdog=30.0):
     exp = pyf(values)
     case = {'id': cid, 'patch': patches(b, values, ww), 'scratch': [[a, a + 1, m] for a, m in b.addr['scratch'].items()],
-            'watchdog': watchdog}
+            'watchdog': watchdog, 'read': [jw + 2 * i for _, jw, n in b.addr['vars'] for i in range(n)]}
     if exp is not None:
         case['expect'] = patches(b, exp[0], ww)
     else:
         case['expect'] = case['patch']
     return case, exp
+
+
+def observed_values(b, r, w):
+    """variable values decoded from the words read back (None when a word is not of the form digit*dw)"""
+    rd = r.get('read')
+    if not rd:
+        return None
+    ww = w.bit_length() - 1
+    out = []
+    for bits, jw, n in b.addr['vars']:
+        v = 0
+        for i in range(n):
+            x = rd.get(str(jw + 2 * i), 0)
+            if x & ((1 << (ww + 1)) - 1) or (x >> (ww + 1)) >= (1 << bits):
+                v = None
+                break
+            v |= (x >> (ww + 1)) << (bits * i)
+        out.append(v)
+    return out
 
 
 def judge(b, exp, r):
@@ -446,7 +492,8 @@ def judge(b, exp, r):
     if want is None or r['out'] != want or r['out_bits'] != 8 * len(want):
         return f'took a different exit: printed {r["out"]} ({r["out_bits"]} bits), documented exit {exp[1]} prints {want}'
     if r['ndiffs']:
-        return f'{r["ndiffs"]} memory word(s) differ from image+spec, first (word, got, want): {r["diffs"][:4]}'
+        return (f'variables afterwards {observed_values(b, r, b.w)} (documented {exp[0]}); {r["ndiffs"]} memory word(s) differ from '
+                f'image+spec, first (word, got, want): {r["diffs"][:4]}')
     return None
 
 
@@ -557,7 +604,7 @@ def emit_piece_file(im, idx, units):
         b = u['b']
         u['file'] = name
         u['thm'] = f'p_{b.bid}_{u["j"]}'
-        S = coq_spec(b.spec)
+        S = thm_spec(b)
         rs = dom_term(u['ranges'])
         txt.append(f'Lemma c_{b.bid}_{u["j"]} : forallb (check_block ww segs img b{b.k} {S}) (enum_dom {rs}) = true.')
         txt.append('Proof. vm_cast_no_check (eq_refl true). Qed.')
@@ -578,7 +625,7 @@ def emit_master(im, ok_blocks):
     txt = [f'(* GENERATED - instance theorems of image {im["name"]} (w = {im["w"]}) *)',
            f'{HDR} Gen.Img_{im["name"]}' + ''.join(f' Gen.{f}' for f in files) + '.', 'Local Open Scope N_scope.']
     for b in ok_blocks:
-        S = coq_spec(b.spec)
+        S = thm_spec(b)
         P = f'block_correct ww segs img b{b.k} {S}'
         pos = b.pieces[0]['pos']
         pre = dom_term(b.dom[:pos])
@@ -600,6 +647,10 @@ def emit_master(im, ok_blocks):
             txt.append(f'Corollary {tn}_forall : forall {" ".join(vs)}, {hyps} -> {P} [{"; ".join(vs)}].')
             txt.append(f'Proof. intros. apply {tn}. apply in_dom{len(vs)}; assumption. Qed.')
         txt.append(f'Print Assumptions {tn}.')
+        for i, wv in enumerate(b.witnesses):
+            # the unguarded documented formula is false on the witness (the known defect still reproduces on this image)
+            txt.append(f'Example {tn}_refuted_{i} : check_block ww segs img b{b.k} {coq_spec(b.spec)} {fw.nlist(wv)} = false.')
+            txt.append('Proof. vm_cast_no_check (eq_refl false). Qed.')
     path = GEN / f'{name}.v'
     path.write_text('\n'.join(txt) + '\n')
     return path
@@ -655,7 +706,7 @@ def doc_of(entry):
         lines = path.read_text().splitlines()
     except OSError:
         return None
-    pat = re.compile(r'^\s*' + re.escape(entry['sig']) + r'(\s|@|<|>|\{|$)')
+    pat = re.compile(r'^\s*' + re.escape(entry['sig']) + r'(\s|@|<|>|\{|\\|$)')
     for i, l in enumerate(lines):
         if pat.match(l):
             j = i - 1
@@ -692,7 +743,10 @@ def standalone_program(cfg, b, values):
 
 def report_failure(ctx, cfg, b, values, exp, model_obs, engine_obs, verdicts, origin):
     ww = b.w.bit_length() - 1
-    sig = {'kind': 'stl-spec', 'macro': b.macro, 'w': b.w}
+    defect = None
+    if b.guard and SP.guard_fn(b.guard)(values):
+        defect = b.guard.split()[0]
+    sig = {'kind': 'stl-spec', 'macro': b.macro, 'defect': defect}
     what = (f'{b.title} (w={b.w}) on operands {values}: documented result {spec_text(b.spec)} = '
             f'{None if exp is None else exp[0]} exit {None if exp is None else exp[1]}; real engine: {verdicts}')
     replay = {'block': b.title, 'macro': b.macro, 'w': b.w, 'operands': values, 'spec': b.spec, 'params': b.params,
@@ -708,6 +762,9 @@ def report_failure(ctx, cfg, b, values, exp, model_obs, engine_obs, verdicts, or
 
 def run_property(ctx, cfg):
     t_start = time.time()
+    only = os.environ.get('FJVERIF_STL_ONLY')      # development aid: regex on macro-table names
+    if only:
+        cfg = dataclasses.replace(cfg, table=[e for e in cfg.table if re.search(only, e['name'])])
     prop = ctx.prop
     fw.static_proofs(ctx, [f'Properties/{prop}.v'])
     clean_gen([f'Img_{prop}_', f'StlP_{prop}_', f'StlT_{prop}_', f'StlTie_{prop}_', f'StlD_{prop}_'])
@@ -746,6 +803,7 @@ def run_property(ctx, cfg):
         for b in im['blocks']:
             pyf = py_spec(b.spec)
             vals = sample_operands(ctx.rng, b, nsm if b.kind != 'sample' else ctx.n(8, 24))
+            vals += [list(wv) for wv in b.witnesses if list(wv) not in vals]
             for eng in ('fast', 'native') + (('featured',) if b.kind == 'sample' or ctx.tier == 'thorough' else ()):
                 vv = vals if eng != 'featured' else vals[:2]
                 cases, exps = [], []
@@ -780,6 +838,14 @@ def run_property(ctx, cfg):
         ctx.sample({'kind': 'real-engine run', 'block': b.title, 'w': b.w, 'engine': eng, 'operands': vv[0],
                     'spec_result': exps[0], 'observed': {k: rs[0].get(k) for k in ('cause', 'ops', 'out', 'ndiffs')}})
     t_eng = time.time()
+
+    if os.environ.get('FJVERIF_STL_DRY'):          # development aid: cost table only
+        rows = sorted(((b.ncases() * (b.ops + 30), b.title, b.w, b.ncases(), b.ops) for im in images for b in im['blocks']), reverse=True)
+        print('estimated machine steps:', sum(r[0] for r in rows), 'blocks:', len(rows), 'images:', len(images),
+              'image words:', sum(im['res']['nwords'] for im in images))
+        for r in rows[:60]:
+            print(r)
+        return
 
     # ---- Coq: images, pieces, masters, ties
     img_paths = {im['name']: emit_image(im) for im in images}
@@ -853,7 +919,7 @@ def run_property(ctx, cfg):
     cov['instances'] = inst if len(inst) <= 400 else inst[:400] + [{'note': f'{len(inst) - 400} more omitted'}]
     for b in [b for im in live for b in im['blocks']][:3]:
         ctx.sample({'kind': 'generated theorem', 'name': theorem_name(b),
-                    'statement': f'forall vs, in_dom {b.dom} vs -> block_correct ww segs img b{b.k} {spec_text(b.spec)} vs',
+                    'statement': f'forall vs, in_dom {dom_term(b.dom)} vs -> block_correct ww segs img b{b.k} {thm_spec(b)} vs',
                     'program': block_text(b, b.k).splitlines()[:6]})
 
     # ---- ties
@@ -914,7 +980,6 @@ def run_property(ctx, cfg):
 
 
 def fw_keep_gen():
-    import os
     return os.environ.get('FJVERIF_KEEP_GEN') == '1'
 
 
@@ -923,11 +988,10 @@ def diagnose(ctx, cfg, so, failed_units):
     files = []
     for i, (im, u) in enumerate(failed_units):
         b = u['b']
-        S = coq_spec(b.spec)
+        S = thm_spec(b)
         name = f'StlD_{im["name"]}_{i}'
         txt = [f'{HDR} Gen.Img_{im["name"]}.', 'Local Open Scope N_scope.',
-               f'Eval vm_compute in (firstn 3 (filter (fun vs => negb (check_block ww segs img b{b.k} {S} vs)) '
-               f'(enum_dom {dom_term(u["ranges"])}))).']
+               f'Eval vm_compute in (first_fails 3 (check_block ww segs img b{b.k} {S}) (enum_dom {dom_term(u["ranges"])})).']
         path = GEN / f'{name}.v'
         path.write_text('\n'.join(txt) + '\n')
         files.append(path)
@@ -1030,11 +1094,12 @@ def replay(ctx, cfg, path):
     for eng in ('fast', 'native'):
         # stand-alone program: operands are literals, the start-up jumps straight into the block: nothing is patched
         case = {'id': 0, 'patch': [], 'scratch': [[a, a + 1, m] for a, m in b.addr['scratch'].items()], 'watchdog': 60.0,
+                'read': [jw + 2 * i for _, jw, n in b.addr['vars'] for i in range(n)],
                 'expect': [p for p in patches(b, exp[0], ww) if p[0] != 1] if exp else []}
         r = run_engines(ctx, so, [{'fjm': res['fjm'], 'w': w, 'engine': eng, 'cases': [case]}])[0][0]
         bad = judge(b, exp, r)
         print(f'[{ctx.prop} replay] {rp["block"]} w={w} operands={vals} engine={eng}: required values={exp[0] if exp else None} '
-              f'exit={exp[1] if exp else None}; observed cause={r.get("cause")} out={r.get("out")} differing words={r.get("diffs")}'
+              f'exit={exp[1] if exp else None}; observed values={observed_values(b, r, w)} cause={r.get("cause")} out={r.get("out")} differing words={r.get("diffs")}'
               f' -> {"VIOLATION: " + bad if bad else "ok"}')
         if bad:
             status = 1
